@@ -34,6 +34,9 @@ const APIS: &[&str] = &[
     "registry_write_json", "registry_call_json", "batch_json_with_timeout", "noreply",
 ];
 
+static HEARTBEAT: std::sync::atomic::AtomicU64 = std::sync::atomic::AtomicU64::new(0);
+static CURRENT_OP: std::sync::Mutex<String> = std::sync::Mutex::new(String::new());
+
 /// typed-slice entry points (blocking and async client only)
 const SLICE_APIS: &[&str] = &["call_typed_slice", "call_typed_slice_with_timeout", "call_typed_slice_aligned", "call_typed_slice_aligned_with_timeout"];
 
@@ -129,7 +132,8 @@ fn gen_ops(r: &mut Rng, n: usize, kind: &str) -> Vec<Op> {
             },
             3 | 4 => Op::Json { notify: r.chance(1, 3), path: gen_path(r), value: json!({"k": r.below(1000), "s": "x".repeat(r.below(40) as usize), "l": [1, 2, r.below(9)]}) },
             5 => Op::Message { path: gen_path(r) },
-            6 => Op::Batch { paths: (0..r.range(1, 5)).map(|i| format!("/b/{}", i)).collect() },
+            // class q: also many calls in flight at once (MAX_BATCH_WORKERS is 64)
+            6 => Op::Batch { paths: (0..*r.pick(&[1u64, 2, 3, 4, 5, 12, 17, 40, 64, 65])).map(|i| format!("/b/{}", i)).collect() },
             _ => Op::Json { notify: false, path: gen_path(r), value: Value::Null },
         })
         .collect()
@@ -333,6 +337,26 @@ fn main() {
     if !missing.is_empty() {
         eprintln!("emit: public client entry points NOT DRIVEN (add them to APIS / SLICE_APIS / NO_REQUEST): {:?}", missing);
     }
+    // (o) a call into a client that never returns must not hang the check: no op of this family waits longer than 10 s itself
+    {
+        let dir = args.out.clone();
+        std::thread::spawn(move || {
+            let mut last = (0u64, std::time::Instant::now());
+            loop {
+                std::thread::sleep(Duration::from_millis(500));
+                let hb = HEARTBEAT.load(std::sync::atomic::Ordering::Relaxed);
+                if hb != last.0 { last = (hb, std::time::Instant::now()); continue; }
+                if hb > 0 && last.1.elapsed() > Duration::from_secs(45) {
+                    let op = CURRENT_OP.lock().map(|g| g.clone()).unwrap_or_default();
+                    let v = json!({"sig": "emit.call_never_returned", "detail": format!("a client entry point did not return within 45 s: {}", op), "ops": [format!("# {}", op)]});
+                    if let Ok(mut f) = std::fs::OpenOptions::new().append(true).create(true).open(dir.join("oracle.txt")) { let _ = writeln!(f, "{}", v); }
+                    let _ = std::fs::write(dir.join("stats.json"), json!({"evaluations": hb, "distinct_nontrivial": 0, "distinct": 0, "oracle_failures": 1,
+                        "rule": "stopped by the harness watchdog: a call never returned", "distribution": {}, "samples": [], "extra": {}}).to_string());
+                    std::process::exit(3);
+                }
+            }
+        });
+    }
     let mut rng = Rng::new(args.seed);
     let n_ops = if args.thorough() { 1500 } else { 160 };
     let mut idx = 0usize;
@@ -354,6 +378,8 @@ fn main() {
                 if op_no == ops.len() / 4 { let _ = c.set_write_timeout(Some(Duration::from_secs(5))); out.count("emit.blocking.write_timeout_set"); }
                 if op_no == 3 * ops.len() / 4 { let _ = c.set_write_timeout(None); }
             }
+            HEARTBEAT.fetch_add(1, std::sync::atomic::Ordering::Relaxed);
+            if let Ok(mut g) = CURRENT_OP.lock() { *g = format!("{} {:?}", client_kind, op).chars().take(300).collect(); }
             let exp = expectations(op);
             out.count(&format!("emit.entry.{}.{}", client_kind, match op {
                 Op::Formats { notify: true, .. } => "notify_with_formats", Op::Formats { .. } => "call_with_formats",
